@@ -17,3 +17,8 @@ func AssertUnlocked(l interface {
 // before mutex and channel operations (a native replay cannot force those,
 // so counterexamples found this way may be reported as not reproducible).
 func PreemptAtSync() {}
+
+// NativeDelay makes a goroutine started by the code under test lag behind in
+// native replays (a no-op under the engine, where such goroutines only run
+// when the engine schedules them). It models "this takes a while".
+func NativeDelay() { nativeDelay() }
